@@ -129,6 +129,11 @@ def run_property(pid, tier="quick", fresh=False):
             except Exception:
                 traceback.print_exc()
                 broken.append("%s: internal error in the checker" % fn.__name__)
+        if tier == "thorough" and not os.environ.get("UV_IN_SELFTEST"):
+            try:
+                _sensitivity(ctx, pid)
+            except AnalysisBroken as e:
+                broken.append("checker-sensitivity: %s" % e)
         ctx.broken = broken
     except AnalysisBroken as e:
         print("ANALYSIS-BROKEN property=%s: %s" % (pid, e))
@@ -169,6 +174,36 @@ def run_property(pid, tier="quick", fresh=False):
         return 2
     print("PASS property=%s tier=%s rules=%d obligations=%d wall=%.1fs" % (pid, tier, len(ctx.rules), sum(r.obligations for r in ctx.rules), time.time() - t0))
     return 0
+
+
+def _sensitivity(ctx, pid):
+    """thorough tier: the check must still report every one of its mutants (selftest/mutants/<pid>/*.patch applied to a
+    scratch copy of the current tree).  A mutant that is no longer reported means the checker lost sensitivity - that is
+    analysis-broken (exit 2), never a violation of the property."""
+    import re
+    import subprocess
+    mdir = os.path.join(VERIF, "selftest", "mutants", pid)
+    if not os.path.isdir(mdir):
+        return
+    r = ctx.rule("checker-sensitivity", "every mutant of selftest/mutants/%s (one broken rule instance each, still compiling) applied to a scratch "
+                 "copy of the current tree makes this check exit 1 and name the mutated instance" % pid)
+    p = subprocess.run([os.path.join(VERIF, "selftest", "run"), pid, "-j", str(min(8, os.cpu_count() or 4)), "--no-json"],
+                       stdout=subprocess.PIPE, stderr=subprocess.STDOUT, text=True)
+    bad = []
+    for line in p.stdout.splitlines():
+        m = re.match(r"^(C\d+)\s+(\S+\.patch)\s+(\S+)", line)
+        if not m:
+            continue
+        r.seen()
+        if m.group(3) in ("detected",):
+            r.ok("mutant/%s" % m.group(2), None, "reported")
+        elif m.group(3) == "not-applicable":
+            r.note("mutant %s no longer applies to the current tree" % m.group(2))
+        else:
+            bad.append("%s: %s" % (m.group(2), m.group(3)))
+    if bad:
+        raise AnalysisBroken("the check no longer reports %d of its mutants: %s" % (len(bad), "; ".join(bad)))
+    r.floor(1, "mutants")
 
 
 def write_evidence(ctx, path, seed, t0, broken=None):
